@@ -2,6 +2,7 @@ package main
 
 import (
 	"context"
+	"fmt"
 	"math"
 	"time"
 
@@ -55,14 +56,19 @@ func jsI32(p *int32) any {
 func coqEl(e *traits.EnterLeaveEvent) string {
 	occ := "None"
 	if e.Occupant != nil {
-		occ = vcoq.Some(vcoq.Str(e.Occupant.Name))
+		occ = vcoq.Some(vcoq.Str(occKey(e.Occupant)))
 	}
 	return vcoq.App("mkEl", vcoq.Z(int64(e.Direction)), occ, coqOptI32(e.EnterTotal), coqOptI32(e.LeaveTotal))
 }
+// occKey renders the occupant fields the harness varies (the model treats the occupant as opaque).
+func occKey(o *traits.EnterLeaveEvent_Occupant) string {
+	return fmt.Sprintf("%s|%s|%s|%v", o.Name, o.Title, o.Email, o.Ids)
+}
+
 func jsEl(e *traits.EnterLeaveEvent) any {
 	var occ any
 	if e.Occupant != nil {
-		occ = e.Occupant.Name
+		occ = occKey(e.Occupant)
 	}
 	return map[string]any{"direction": int32(e.Direction), "occupant": occ, "enter_total": jsI32(e.EnterTotal), "leave_total": jsI32(e.LeaveTotal)}
 }
@@ -88,6 +94,8 @@ func (g *gen) enterLeave() {
 			opts = append(opts, enterleavesensorpb.WithInitialEnterLeaveEvent(init))
 			cfg["initial"] = jsEl(init)
 		}
+		opts, plain := g.sprinkle(opts, nil)
+		cfg["plain_options"] = plain
 		m := enterleavesensorpb.NewModel(opts...)
 		srv := enterleavesensorpb.NewModelServer(m)
 		var hist []any
@@ -110,6 +118,12 @@ func (g *gen) enterLeave() {
 				ev := &traits.EnterLeaveEvent{Direction: traits.EnterLeaveEvent_Direction(g.r.Intn(3))}
 				if g.r.Chance(40) {
 					ev.Occupant = &traits.EnterLeaveEvent_Occupant{Name: g.pick([]string{"alice", "bob", ""})}
+					if g.r.Chance(40) {
+						ev.Occupant.Title, ev.Occupant.Email = g.pick([]string{"Dr", ""}), g.pick([]string{"a@example.com", ""})
+					}
+					if g.r.Chance(20) {
+						ev.Occupant.Ids = map[string]string{"badge": g.pick([]string{"17", "42"})}
+					}
 				}
 				total := func(cur *int32) *int32 {
 					switch g.r.Intn(10) {
@@ -180,10 +194,15 @@ func (g *gen) meter() {
 			if sub&2 != 0 {
 				init.EndTime = timestamppb.New(time.Unix(b, 0))
 			}
+			if g.r.Chance(30) { // an earlier initial value that the later one replaces
+				opts = append(opts, resource.WithInitialValue(&traits.MeterReading{Usage: 77, StartTime: timestamppb.New(time.Unix(3, 0))}))
+			}
 			opts = append(opts, resource.WithInitialValue(init))
 			cfg["initial"] = jsMeter(init)
 			initCoq = vcoq.Some(coqMeter(init))
 		}
+		opts, plain := g.sprinkle(opts, clk)
+		cfg["plain_options"] = plain
 		var m *meterpb.Model
 		if g.try("panic:meterpb:new", cfg, func() { m = meterpb.NewModel(opts...) }) {
 			continue
@@ -277,13 +296,96 @@ func (g *gen) somePub(id string) *traits.Publication {
 	return p
 }
 
+var pubPaths = []string{"id", "version", "body", "media_type", "publish_time", "audience",
+	"audience.name", "audience.receipt", "audience.receipt_rejected_reason", "audience.receipt_time"}
+
+// pubMask: nil, or any subset of the publication paths (nested audience paths included), rarely an unknown field.
+func (g *gen) pubMask() (*fieldmaskpb.FieldMask, string) {
+	if g.r.Chance(30) {
+		return nil, "None"
+	}
+	in := make([]bool, len(pubPaths))
+	switch g.r.Intn(10) {
+	case 0:
+		in[6] = true // audience.name alone
+	case 1:
+		in[5] = true // the whole audience
+	case 2:
+		in[2] = true
+	case 3:
+		in[2], in[3] = true, true
+	case 4: // nothing: a mask without paths
+	default:
+		for i := range in {
+			in[i] = g.r.Chance(25)
+		}
+	}
+	fm := &fieldmaskpb.FieldMask{Paths: []string{}}
+	args := make([]string, 0, len(in)+1)
+	for i, b := range in {
+		if b {
+			fm.Paths = append(fm.Paths, pubPaths[i])
+		}
+		args = append(args, vcoq.Bool(b))
+	}
+	bad := g.r.Chance(3)
+	if bad {
+		fm.Paths = append(fm.Paths, "audience.no_such_field")
+	}
+	args = append(args, vcoq.Bool(bad))
+	if len(fm.Paths) > 1 {
+		k := g.r.Intn(len(fm.Paths))
+		fm.Paths = append(fm.Paths[k:], fm.Paths[:k]...)
+	}
+	return fm, vcoq.Some(vcoq.App("mkPM", args...))
+}
+
+// refVersions answers "which version does a server mint for a publication with this content": the version
+// a fresh model server gives a newly created publication with the same id, body, media type and audience name.
+type refVersions map[string]string
+
+func (rv refVersions) of(p *traits.Publication) string {
+	if p == nil {
+		return ""
+	}
+	key := fmt.Sprintf("%q %q %q %q", p.Id, p.Body, p.MediaType, p.GetAudience().GetName())
+	if v, ok := rv[key]; ok {
+		return v
+	}
+	q := &traits.Publication{Id: p.Id, Body: append([]byte{}, p.Body...), MediaType: p.MediaType}
+	if n := p.GetAudience().GetName(); n != "" {
+		q.Audience = &traits.Publication_Audience{Name: n}
+	}
+	created, err := publicationpb.NewModelServer(publicationpb.NewModel()).CreatePublication(context.Background(), &traits.CreatePublicationRequest{Publication: q})
+	if err != nil {
+		panic(err)
+	}
+	rv[key] = created.Version
+	return created.Version
+}
+
 func (g *gen) publication() {
-	nseq := 50 * g.mult
+	nseq := 120 * g.mult
+	ref := refVersions{}
 	for s := 0; s < nseq; s++ {
 		clk := &fakeClock{sec: 1_700_000_000}
-		m := publicationpb.NewModel(resource.WithClock(clk))
-		srv := publicationpb.NewModelServer(m)
+		opts := []resource.Option{resource.WithClock(clk)}
 		cfg := map[string]any{"model": "publicationpb"}
+		if g.r.Chance(30) { // an initial record, stored as configured
+			p := g.somePub(g.pick(pubIDs))
+			if g.r.Bool() {
+				p.Version = ref.of(p)
+			}
+			opts = append(opts, publicationpb.WithInitialPublication(p))
+			cfg["initial"] = jsPub(p)
+		}
+		opts, plain := g.sprinkle(opts, clk)
+		cfg["plain_options"] = plain
+		var m *publicationpb.Model
+		if g.try("panic:publicationpb:new", cfg, func() { m = publicationpb.NewModel(opts...) }) {
+			continue
+		}
+		srv := publicationpb.NewModelServer(m)
 		var hist []any
 		oldVersions := map[string]string{}
 		for k := g.r.Range(5, 16); k > 0; k-- {
@@ -292,9 +394,9 @@ func (g *gen) publication() {
 			pre, _ := m.GetPublication(id)
 			version := func() string {
 				switch {
-				case pre != nil && g.r.Chance(65):
+				case pre != nil && g.r.Chance(60):
 					return pre.Version
-				case oldVersions[id] != "" && g.r.Chance(50):
+				case oldVersions[id] != "" && g.r.Chance(70):
 					return oldVersions[id]
 				case g.r.Chance(50):
 					return ""
@@ -306,32 +408,48 @@ func (g *gen) publication() {
 			var ret *traits.Publication
 			var err error
 			var run func()
-			switch kind := g.r.Intn(10); {
-			case kind < 2 || (pre == nil && kind < 6):
+			switch kind := g.r.Intn(20); {
+			case kind < 4 || (pre == nil && kind < 12):
 				p := g.somePub(id)
 				op, opCoq, tag = map[string]any{"op": "CreatePublication", "publication": jsPub(p)}, vcoq.App("PCreate", coqPubBare(p)), "publication.create"
 				run = func() {
 					ret, err = srv.CreatePublication(context.Background(), &traits.CreatePublicationRequest{Publication: p})
 				}
-			case kind < 5:
+			case kind < 11:
 				p := g.somePub(id)
-				if g.r.Chance(5) {
+				if g.r.Chance(4) {
 					p.Id = ""
 				}
-				mask := g.r.Intn(3)
-				req := &traits.UpdatePublicationRequest{Publication: p, Version: version()}
+				if p.Audience != nil && g.r.Chance(10) {
+					p.Audience.Name = "" // an audience without a name
+				}
+				fm, maskCoq := g.pubMask()
+				req := &traits.UpdatePublicationRequest{Publication: p, Version: version(), UpdateMask: fm}
 				if g.r.Chance(40) {
 					req.Version = ""
 				}
-				switch mask {
-				case 1:
-					req.UpdateMask = &fieldmaskpb.FieldMask{Paths: []string{"body"}}
-				case 2:
-					req.UpdateMask = &fieldmaskpb.FieldMask{Paths: []string{"body", "media_type"}}
+				op = map[string]any{"op": "UpdatePublication", "publication": jsPub(p), "update_mask": jsMask(fm), "version": req.Version}
+				opCoq, tag = vcoq.App("PUpdate", coqPubBare(p), maskCoq, vcoq.Str(req.Version)), "publication.update"
+				if fm != nil {
+					tag = "publication.update.masked"
 				}
-				op = map[string]any{"op": "UpdatePublication", "publication": jsPub(p), "mask": mask, "version": req.Version}
-				opCoq, tag = vcoq.App("PUpdate", coqPubBare(p), vcoq.Int(mask), vcoq.Str(req.Version)), "publication.update"
 				run = func() { ret, err = srv.UpdatePublication(context.Background(), req) }
+			case kind < 12:
+				req := &traits.DeletePublicationRequest{Id: id, Version: version(), AllowMissing: g.r.Chance(40)}
+				if g.r.Chance(40) {
+					req.Version = ""
+				}
+				if g.r.Chance(5) {
+					req.Id = ""
+				}
+				op = map[string]any{"op": "DeletePublication", "id": req.Id, "version": req.Version, "allow_missing": req.AllowMissing}
+				opCoq, tag = vcoq.App("PDelete", vcoq.Str(req.Id), vcoq.Str(req.Version), vcoq.Bool(req.AllowMissing)), "publication.delete"
+				run = func() {
+					ret, err = srv.DeletePublication(context.Background(), req)
+					if err != nil {
+						ret = nil // a server answers with the error alone
+					}
+				}
 			default:
 				req := &traits.AcknowledgePublicationRequest{Id: id, Version: version(), AllowAcknowledged: g.r.Chance(40),
 					Receipt: traits.Publication_Audience_Receipt(2 + g.r.Intn(2))}
@@ -363,16 +481,18 @@ func (g *gen) publication() {
 				obs = vcoq.App("PErr", vcoq.Z(int64(status.Code(err))))
 				tag += ".error"
 			case ret == nil:
-				g.direct("publication call returned (nil, nil)", "publicationpb:nil-nil", replay)
-				continue
+				obs = "PNil"
 			default:
 				obs = vcoq.App("POk", coqPubBare(ret))
 			}
 			if pre != nil && post != nil && pre.Version != post.Version {
 				oldVersions[id] = pre.Version
 			}
-			g.add(vcoq.App("KPub", vcoq.Z(clk.sec), preCoq, opCoq, obs, coqPub(post)),
-				map[string]any{"config": cfg, "now": clk.sec, "pre": preJS, "op": op, "returned": jsPub(ret), "error": errCode(err), "post": jsPub(post)}, tag)
+			// the version the content before / after the operation should carry
+			hpre, hpost := ref.of(pre), ref.of(post)
+			g.add(vcoq.App("KPub", vcoq.Z(clk.sec), preCoq, opCoq, obs, coqPub(post), vcoq.Str(hpre), vcoq.Str(hpost)),
+				map[string]any{"config": cfg, "now": clk.sec, "pre": preJS, "op": op, "returned": jsPub(ret), "error": errCode(err), "post": jsPub(post),
+					"version_of_content_before": hpre, "version_of_content_after": hpost}, tag)
 		}
 	}
 }
